@@ -1,7 +1,149 @@
-import Spec.Filter
-namespace C20
-open Model.Filter Spec.Filter
+import Lemmas.Filter.Name
+/-!
+# C20 — objects excluded by autogenerate filters never appear in the output
 
-theorem placeholder : True := trivial
+Theorems about `Model.Filter.diffF` (mirror of the comparison skeleton of
+`alembic/autogenerate/compare.py` with `run_name_filters` / `run_object_filters` at their call
+sites) for **every** pair of schemas (any number of tables, columns, indexes, unique constraints,
+foreign keys; names may even repeat), every comparison outcome `Cmp`, every list of inspected
+schemas and every pair of predicates `objF : ObjDesc → Bool`, `nameF : NameDesc → Bool`.
+-/
+namespace C20
+open Model.Filter Spec.Filter Lemmas.Filter
+
+/-- **C20.object.** No generated op targets an object rejected by `include_object`, nor anything
+inside a rejected table (`A'` = the reflected side as left by the name filter). -/
+theorem object (P : Cmp) (objF : ObjDesc → Bool) (nameF : NameDesc → Bool)
+    (schemas : List (Option String)) (conn md : List Tbl) :
+    objectOk objF (visible nameF schemas conn) md (diffF P objF nameF schemas conn md) = true := by
+  simp only [objectOk, List.all_eq_true]
+  intro op hop
+  simp only [diffF, diffCore] at hop
+  obtain ⟨t, ht, hft, g, hg, hfg, hop'⟩ := mem_runT.mp hop
+  obtain ⟨h1, h2⟩ := candidates_desc P _ md t ht g hg op hop'
+  simp [objAccepts, h1, h2, hft, hfg]
+
+/-- the recogniser rejects a leak: a `drop_index` inside a table that `include_object` rejects -/
+example : objectOk (fun d => !(d.ty == .table && d.name == some "t"))
+    [⟨none, "t", ["id"], [⟨"ix", false, "id"⟩], [], []⟩] [⟨none, "t", ["id"], [], [], []⟩]
+    [⟨.dropIndex, none, "t", some "ix", "id"⟩] = false := by decide
+
+/-- **C20.conservative (object filter).** The object filter only removes ops: the filtered diff is
+exactly the unfiltered diff (same name filter) restricted to the ops whose target and enclosing
+table `include_object` accepts - nothing is added, reordered or changed. -/
+theorem conservative_object (P : Cmp) (objF : ObjDesc → Bool) (nameF : NameDesc → Bool)
+    (schemas : List (Option String)) (conn md : List Tbl) :
+    diffF P objF nameF schemas conn md =
+      (diffF P (fun _ => true) nameF schemas conn md).filter
+        (objAccepts objF (visible nameF schemas conn) md) := by
+  simp only [diffF, diffCore]
+  apply runT_eq_filter
+  intro t ht g hg op hop
+  obtain ⟨h1, h2⟩ := candidates_desc P _ md t ht g hg op hop
+  simp [objAccepts, h1, h2]
+
+/-- what being on the name-filtered reflected side means -/
+theorem mem_visible (nameF : NameDesc → Bool) (schemas : List (Option String)) (conn : List Tbl)
+    (t : Tbl) (h : t ∈ visible nameF schemas conn) :
+    nameF ⟨t.schema, .schema, none, none⟩ = true ∧
+    nameF ⟨some t.name, .table, t.schema, none⟩ = true ∧
+    (∀ c ∈ t.cols, nameF ⟨some c, .column, t.schema, some t.name⟩ = true) ∧
+    (∀ i ∈ t.idxs, nameF ⟨some i.name, .index, t.schema, some t.name⟩ = true) ∧
+    (∀ u ∈ t.uqs, nameF ⟨u.name, .uniqueConstraint, t.schema, some t.name⟩ = true) ∧
+    (∀ f ∈ t.fks, nameF ⟨f.name, .foreignKey, t.schema, some t.name⟩ = true) := by
+  simp only [visible, List.mem_map, List.mem_filter] at h
+  obtain ⟨t0, ⟨_, hvis⟩, rfl⟩ := h
+  simp only [tableVisible, Bool.and_eq_true, List.contains_iff_mem, visibleSchemas, List.mem_filter] at hvis
+  refine ⟨hvis.1.2, hvis.2, ?_, ?_, ?_, ?_⟩ <;>
+    · intro x hx
+      simp only [visibleTbl, List.mem_filter] at hx
+      exact hx.2
+
+/-- **C20.name.** No drop / alter op targets a reflected schema, table, column, index or
+constraint name rejected by `include_name` (such objects are treated as absent). -/
+theorem name (P : Cmp) (objF : ObjDesc → Bool) (nameF : NameDesc → Bool)
+    (schemas : List (Option String)) (conn md : List Tbl) :
+    nameOk nameF (diffF P objF nameF schemas conn md) = true := by
+  simp only [nameOk, List.all_eq_true]
+  intro op hop
+  simp only [diffF, diffCore] at hop
+  obtain ⟨t, ht, _, g, hg, _, hop'⟩ := mem_runT.mp hop
+  by_cases htouch : op.kind.touchesDb = true
+  · obtain ⟨c, hc, hkey, htarget⟩ := candidates_in P _ md t ht g hg op hop' htouch
+    obtain ⟨h1, h2, h3, h4, h5, h6⟩ := mem_visible nameF schemas conn c hc
+    have hs : op.schema = c.schema := by
+      have := congrArg Prod.fst hkey; simpa [Tbl.key, Op.key] using this.symm
+    have hn : op.table = c.name := by
+      have := congrArg Prod.snd hkey; simpa [Tbl.key, Op.key] using this.symm
+    simp only [htouch, Bool.not_true, Bool.false_or, nameAccepts, Bool.and_eq_true, hs, hn, h1, h2, true_and]
+    rcases op with ⟨kind, oschema, otable, oname, osig⟩
+    cases kind <;> simp [OpKind.touchesDb] at htouch <;> simp [OpKind.targetTy, TargetIn] at htarget ⊢
+    · obtain ⟨x, hx, rfl⟩ := htarget; exact h3 x hx
+    · obtain ⟨x, hx, rfl⟩ := htarget; exact h3 x hx
+    · obtain ⟨x, hx, rfl⟩ := htarget; exact h4 x hx
+    · obtain ⟨x, hx, rfl⟩ := htarget; exact h5 x hx
+    · obtain ⟨x, hx, rfl⟩ := htarget; exact h6 x hx
+  · simp [htouch]
+
+/-- the recogniser rejects a drop of a name-filtered column -/
+example : nameOk (fun d => !(d.ty == .column && d.name == some "secret"))
+    [⟨.dropColumn, none, "t", some "secret", ""⟩] = false := by decide
+
+theorem filter_true' {α : Type} (l : List α) : l.filter (fun _ => true) = l :=
+  List.filter_eq_self.mpr (by simp)
+
+theorem visibleTbl_id (nameF : NameDesc → Bool) (t : Tbl)
+    (h : untouched nameF [t] t.key = true) : visibleTbl nameF t = t := by
+  simp [untouched] at h
+  obtain ⟨⟨⟨⟨⟨_, _⟩, hc⟩, hu⟩, hi⟩, hf⟩ := h
+  cases t
+  simp only [visibleTbl, Tbl.mk.injEq, true_and]
+  simp only at hc hu hi hf
+  refine ⟨?_, ?_, ?_, ?_⟩
+  · exact List.filter_eq_self.mpr (by simpa using hc)
+  · exact List.filter_eq_self.mpr (by simpa using hi)
+  · exact List.filter_eq_self.mpr (by simpa using hu)
+  · exact List.filter_eq_self.mpr (by simpa using hf)
+
+/-- **C20.conservative (name filter).** If `include_name` rejects none of the reflected names
+(schemas, tables, columns, indexes, constraints), it changes nothing: the diff is the diff without
+a name filter. -/
+theorem conservative_name (P : Cmp) (objF : ObjDesc → Bool) (nameF : NameDesc → Bool)
+    (schemas : List (Option String)) (conn md : List Tbl)
+    (hs : ∀ s ∈ schemas, nameF ⟨s, .schema, none, none⟩ = true)
+    (ht : ∀ t ∈ conn, untouched nameF [t] t.key = true) :
+    diffF P objF nameF schemas conn md = diffF P objF (fun _ => true) schemas conn md := by
+  have hv : visible nameF schemas conn = visible (fun _ => true) schemas conn := by
+    have hsch : visibleSchemas nameF schemas = visibleSchemas (fun _ => true) schemas := by
+      simp only [visibleSchemas]
+      rw [List.filter_eq_self.mpr (by simpa using hs)]
+      simp [filter_true']
+    simp only [visible]
+    have hfilt : conn.filter (tableVisible nameF schemas) = conn.filter (tableVisible (fun _ => true) schemas) := by
+      apply List.filter_congr
+      intro t htm
+      have := ht t htm
+      simp [untouched] at this
+      simp [tableVisible, hsch, this.1.1.1.1.2]
+    rw [hfilt]
+    apply List.map_congr_left
+    intro t htm
+    have htm' : t ∈ conn := (List.mem_filter.mp htm).1
+    rw [visibleTbl_id nameF t (ht t htm')]
+    cases t
+    simp [visibleTbl, filter_true']
+  simp only [diffF, hv]
+
+/-- **C20.conservative.** Both filters together, when the name filter rejects no reflected name:
+the ops on objects `include_object` accepts are the same as without any filter. -/
+theorem conservative (P : Cmp) (objF : ObjDesc → Bool) (nameF : NameDesc → Bool)
+    (schemas : List (Option String)) (conn md : List Tbl)
+    (hs : ∀ s ∈ schemas, nameF ⟨s, .schema, none, none⟩ = true)
+    (ht : ∀ t ∈ conn, untouched nameF [t] t.key = true) :
+    diffF P objF nameF schemas conn md =
+      (diffF P (fun _ => true) (fun _ => true) schemas conn md).filter
+        (objAccepts objF (visible (fun _ => true) schemas conn) md) := by
+  rw [conservative_name P objF nameF schemas conn md hs ht]
+  exact conservative_object P objF (fun _ => true) schemas conn md
 
 end C20
